@@ -7,7 +7,7 @@ if ! git diff --quiet; then echo "repo dirty"; exit 2; fi
 git apply "$patch" 2>/dev/null || git apply --3way "$patch" 2>/dev/null || patch -p1 --no-backup-if-mismatch -F3 < "$patch" >/dev/null || { echo "patch does not apply"; git reset -q --hard HEAD; exit 2; }
 for p in "$@"; do
   echo "== $p with $(basename $patch)"
-  (cd /verif && timeout 900 ./check "$p" --tier quick 2>&1 | grep -E "^(VIOLATION|KNOWN|#)" | cut -c1-260 | head -6; echo "exit=$?")
+  (cd /verif && mkdir -p /tmp/wt/evidence && VERIF_EVIDENCE_DIR=/tmp/wt/evidence timeout 900 ./check "$p" --tier quick 2>&1 | grep -E "^(VIOLATION|KNOWN|#)" | cut -c1-260 | head -6; echo "exit=$?")
 done
 git -C /repo reset -q --hard HEAD
 git -C /repo clean -qfd -e target
